@@ -36,6 +36,12 @@ Theorem C11_stack_roundtrip : forall st, (1 <= length st <= Z.to_nat TMCG_MAX_CA
 Proof. exact vstack_roundtrip. Qed.
 Print Assumptions C11_stack_roundtrip.
 
+(* QR-encoded stacks: TMCG_Stack<TMCG_Card> (the same template code as for VTMF_Card), every card within the dimension limits *)
+Theorem C11_tmcg_stack_roundtrip : forall st, (1 <= length st <= Z.to_nat TMCG_MAX_CARDS)%nat -> Forall wf_tcard st ->
+  import_tstack [] (export_tstack st) = Some st.
+Proof. exact tstack_roundtrip. Qed.
+Print Assumptions C11_tmcg_stack_roundtrip.
+
 Theorem C11_stacksecret_roundtrip : forall ss, wf_vstacksecret ss ->
   import_vstacksecret [] (export_vstacksecret ss) = Some ss.
 Proof. exact vstacksecret_roundtrip. Qed.
